@@ -18,7 +18,7 @@ monkey-patching *inside the harness process only*.
 
 * `CallTracer`: context manager that replaces the shape-calculus functions of cubed (`blockwise`, `_map_blocks`,
   `partial_reduce`, `squeeze`, `expand_dims`, `permute_dims`, `concat`, `stack`, `unstack`, `repeat`, `_rechunk`,
-  `merge_chunks`, `map_selection`, `index`, `_qr_first_step`, ... ) in every loaded `cubed.*` module by recording
+  `merge_chunks`, `map_selection`, `index`, `BlockView.__getitem__`, `_qr_first_step`, ... ) in every loaded `cubed.*` module by recording
   wrappers.  A record holds the positional / keyword arguments (arrays replaced by `ArrayMeta` snapshots: name, shape,
   chunks, dtype) and the result (likewise).  Used to present the *real* parameters of every op of a real plan to the
   Lean model.
@@ -255,6 +255,17 @@ class CallTracer:
                     if v is orig:
                         self._saved.append((m, k, orig))
                         setattr(m, k, w)
+        # `Array.blocks[...]` is a method of BlockView
+        try:
+            from cubed.core.indexing import BlockView
+            orig = BlockView.__getitem__
+            if not getattr(orig, "_c12_traced", False):
+                w = self._wrap("blocks", orig)
+                w._c12_traced = True
+                self._saved.append((BlockView, "__getitem__", orig))
+                BlockView.__getitem__ = w
+        except (ImportError, AttributeError):
+            pass
         return self
 
     def __exit__(self, *exc):
